@@ -1028,12 +1028,12 @@ def _own(node, fn):
 
 def check(program, rep):
     program.module(OC)
-    r1_algebra(program, rep)
-    r2_default(program, rep)
-    r3_ranges(program, rep)
-    r4_aliases(program, rep)
-    r5_contract(program, rep)
-    r6_empty(program, rep)
+    rep.guard("C04-R1", r1_algebra, program, rep)
+    rep.guard("C04-R2", r2_default, program, rep)
+    rep.guard("C04-R3", r3_ranges, program, rep)
+    rep.guard("C04-R4", r4_aliases, program, rep)
+    rep.guard("C04-R5", r5_contract, program, rep)
+    rep.guard("C04-R6", r6_empty, program, rep)
     return finish(rep, program, EXPLANATION, NOT_DECIDED,
                   trusted=["bit-parallel truth-table extraction (bits.py)",
                            "LININV engine"])
